@@ -65,10 +65,10 @@ func vget() (VProcs, VObserver) {
 // vDead answers for stale goroutines of an earlier simulated world.
 type vDead struct{}
 
-func (vDead) Start(*forkexec.Runner) (int, error)          { return 0, syscall.ESRCH }
-func (vDead) Kill(int, syscall.Signal) error               { return syscall.ESRCH }
-func (vDead) HostKill() error                              { return nil }
-func (vDead) HostWait() (*os.ProcessState, error)          { return nil, nil }
+func (vDead) Start(*forkexec.Runner) (int, error) { return 0, syscall.ESRCH }
+func (vDead) Kill(int, syscall.Signal) error      { return syscall.ESRCH }
+func (vDead) HostKill() error                     { return nil }
+func (vDead) HostWait() (*os.ProcessState, error) { return nil, nil }
 func (vDead) Wait4(int, *syscall.WaitStatus, int, *syscall.Rusage) (int, error) {
 	return -1, syscall.ECHILD
 }
